@@ -51,3 +51,15 @@ def handle_raw_cemi_never_needs_last_resort(handler, raw):
     else:
         assert len(handled) == 1
         assert cm.cemi_count_incoming_error == before
+
+
+# ------------------------------------------------------------------ the APDU decoder contract this property relies on
+# (APCI_STUBS: APCI.from_knx raises only ConversionError / UnsupportedAPCIService) - proved over every real
+# service decoder in C04; an obligation here too: an undeclared exception from a service decoder escapes
+# CEMIFrame.from_knx and reaches the last-resort guard.
+
+from contracts import c04_apci_decode as _c04  # noqa: E402
+from pyvc.api import rely_on  # noqa: E402
+
+rely_on("C12", _c04.service_decode_raises_only_declared)
+rely_on("C12", _c04.dispatcher_total)
